@@ -207,8 +207,22 @@ def run(ctx):
         else:
             # the model's view as third referee
             want_headers = {nm: ", ".join(VALUES[v] if VALUES[v] != "@LEN" else str(len(body)) for v in vals) for nm, vals in view["headers"]}
-            if "exc" not in ref and (ref["headers"] != want_headers or ref["method"] != view["method"] or
-                                     ref["body"] != ["ok", body.decode("latin-1")]):
+            kinds = [c for ch in rq["chunks"] for c in ch]
+            ctv = [v for k, v in rq["headers"] if k == "Content-Type"]
+            want_parsed = None
+            if kinds == ["multi"] and ctv == ["ctm"]:
+                want_parsed = ("form", ["ok", [["f", "value"], ["u", ["file", "n.bin", "application/x-t", "\x00\x01\xff"]]]])
+            elif kinds == ["form"] and ctv == ["ctf"]:
+                want_parsed = ("form", ["ok", [["a", "1"], ["b", "é"], ["a", "2"]]])
+            elif kinds == ["json"] and ctv == ["ctj"]:
+                want_parsed = ("json", ["ok", {"k": [1, "é"]}])
+            bad_parsed = [key for key, o in obs.items() if want_parsed and "exc" not in o and o.get(want_parsed[0]) != want_parsed[1]]
+            if bad_parsed:
+                o = obs[bad_parsed[0]]
+                ctx.violation(dict(case, compared=list(bad_parsed[0])), want_parsed[1], o.get(want_parsed[0]),
+                              "both stacks agree with each other but the decoded %s is not what the request carries" % want_parsed[0])
+            elif "exc" not in ref and (ref["headers"] != want_headers or ref["method"] != view["method"] or
+                                       ref["body"] != ["ok", body.decode("latin-1")]):
                 ctx.violation(case, {"headers": want_headers, "method": view["method"], "body_len": len(body)},
                               {"headers": ref.get("headers"), "method": ref.get("method"), "body": ref.get("body")},
                               "both stacks agree with each other but not with the abstract request view")
